@@ -151,27 +151,31 @@ def index_model(kind, names, lo, length, fvariant="lin"):
 
 def fam_index(tier):
     names = [nm for nm, _ in index_forms()]
-    plans = []  # (kind, number of subscripts, lower bounds, function variant)
+    plans = []  # (kind, number of subscripts, lower bounds, loop lengths, function variant)
+    every, some = (1, 2, 3, 4), (2, 4)
     for kind in ("rhs", "lhs", "der"):
-        plans.append((kind, 1, (2,), "lin"))
-    for kind in KINDS_QUICK:
-        plans.append((kind, 2, (2,), "lin"))
+        plans.append((kind, 1, (2,), every, "lin"))
+    plans.append(("rhs", 2, (2,), every, "lin"))
+    for kind in KINDS_QUICK[1:]:
+        plans.append((kind, 2, (2,), some, "lin"))
     if tier == "thorough":
+        for kind in KINDS_QUICK[1:]:
+            plans.append((kind, 2, (2,), (1, 3), "lin"))
         for kind in ("rhs", "lhs", "der"):
-            plans.append((kind, 1, (1,), "lin"))
+            plans.append((kind, 1, (1,), every, "lin"))
         for kind in KINDS_QUICK:
-            plans.append((kind, 2, (1,), "lin"))
+            plans.append((kind, 2, (1,), every, "lin"))
         for kind in KINDS_MORE:
-            plans.append((kind, 2, (1, 2), "lin"))
-        plans.append(("rhs", 2, (1, 2), "quad"))
-        plans.append(("rhs", 3, (2,), "lin"))
+            plans.append((kind, 2, (1, 2), every, "lin"))
+        plans.append(("rhs", 2, (1, 2), every, "quad"))
+        plans.append(("rhs", 3, (2,), every, "lin"))
     out, skipped = [], 0
-    for kind, nsub, los, fv in plans:
+    for kind, nsub, los, lengths, fv in plans:
         for combo in itertools.product(names, repeat=nsub):
             if fv != "lin" and not any(nm.startswith("f(") for nm in combo):
                 continue  # the same text as the "lin" plan
             for lo in los:
-                for length in (1, 2, 3, 4):
+                for length in lengths:
                     m = index_model(kind, combo, lo, length, fv)
                     if m is None:
                         skipped += 1
@@ -411,10 +415,11 @@ def run(ctx):
             "exhaustive": True,
             "rule": "all 8 settings of (unroll_loops, inline_functions, expand_mx) for (a) every for-equation and function model of the C11 "
             "families plus loop-with-function-call, delay and delay-in-loop models and (b) the loop-index families: a loop over lo:n "
-            "(n an Integer parameter, lo = 2 so that v-1 is a valid subscript, 1..4 iterations) whose body references one array of %d elements through 1 or 2 "
+            "(n an Integer parameter, lo = 2 so that v-1 is a valid subscript) whose body references one array of %d elements through 1 or 2 "
             "subscripts, every ordered pair of the %d forms (v, v+1, v-1, 2*v, n+1-v, v*v, v*(v+1)/2, f(v), f(v)+1, f(v)-1; f a user "
-            "function of Integer type) in the body kinds rhs (x[v] = y[A] + 2*y[B]), lhs (y[A] = 2*y[B] + x[v]), "
-            "der (der(y[A]) = ...), call (x[v] = g(y[A]) - 2*y[B]) and fstmt (for-statement of a function over an array input)%s; "
+            "function of Integer type) in the body kinds rhs (x[v] = y[A] + 2*y[B]; 1, 2, 3 and 4 iterations), lhs (y[A] = 2*y[B] + x[v]), "
+            "der (der(y[A]) = ...), call (x[v] = g(y[A]) - 2*y[B]) and fstmt (for-statement of a function over an array input) "
+            "(%s iterations)%s; "
             "models with a subscript outside 1..%d are left out.  Each non-default setting is compared with the default: variable "
             "lists/order/types/attributes/outputs/delay states identical, dae_residual, initial_residual, variable_metadata and "
             "delay_arguments functions equal on 3 grid points; every setting's residuals are also compared with the reference "
@@ -422,6 +427,7 @@ def run(ctx):
             % (
                 SIZE,
                 nforms,
+                "1, 2, 3 and 4" if ctx.tier == "thorough" else "2 and 4",
                 "; thorough adds lo = 1 for every kind, the kinds col / row (2-D array, w[A, 2] / w[2, A]), init (initial "
                 "for-equation), nested-value / nested-index (inner loop of a two-iteration outer loop, outer variable as value / as "
                 "plain subscript), a non-linear f, and every ordered triple of forms in kind rhs"
